@@ -154,6 +154,21 @@ fn check_probe(rep: &mut Report, fam: &str, s: &str, o: Opts, want_ok: Option<bo
 			rep.violation("C03:panic", format!("[{}] panic while parsing `{}` from a source of zero-length characters: {}", fam, show(s.as_bytes()), p), json!({"sub": "bytes", "input_hex": hex(s.as_bytes()), "options": [o.truncated, o.invalid]}));
 		}
 	}
+	// the typed `Parse` impls (bool, (), NumberBuf, String) entered directly on the same input
+	if s.len() <= 64 && (rep.evaluations % 8 == 2 || s.len() <= 6) {
+		for kind in ['t', 'n', '0', '"'] {
+			for slice in [false, true] {
+				rep.count("parses_through_the_typed_impls", 1);
+				if let Err(PErr::Panic(p)) = real::parse_typed(kind, s, slice) {
+					rep.violation(
+						"C03:panic",
+						format!("[{}] panic while parsing `{}` through the typed Parse impl for {} ({}): {}", fam, show(s.as_bytes()), match kind { 't' => "bool", 'n' => "()", '0' => "NumberBuf", _ => "String" }, if slice { "parse_slice" } else { "parse_str" }, p),
+						json!({"sub": "bytes", "input_hex": hex(s.as_bytes()), "options": [o.truncated, o.invalid]}),
+					);
+				}
+			}
+		}
+	}
 	if s.len() <= 256 && (rep.evaluations % 8 == 0 || s.len() <= 6) {
 		rep.count("parses_from_a_reentrant_source", 1);
 		match (reentrant_parse(s, o), guard(|| Value::parse_str_with(s, real::options(o)).map(|(v, _)| drop_value_iter(v)).is_ok())) {
@@ -385,7 +400,7 @@ pub fn child(args: &[String]) -> i32 {
 	}
 }
 
-fn run_child(kind_idx: usize, depth: usize, stack: usize, timeout: Duration) -> Result<(Option<i32>, Option<i32>, String), String> {
+pub(crate) fn run_child(kind_idx: usize, depth: usize, stack: usize, timeout: Duration) -> Result<(Option<i32>, Option<i32>, String), String> {
 	use std::os::unix::process::ExitStatusExt;
 	use std::process::{Command, Stdio};
 	let exe = std::env::current_exe().map_err(|e| e.to_string())?;
@@ -548,6 +563,49 @@ fn deep_jobs(cfg: &Config, total: &mut Report, thorough: bool) {
 	total.merge(rep);
 }
 
+/// One case of the family "long runs of one ill-formed byte": `l` copies of byte `b` at the start of
+/// the input (placement 0), inside a string (1) or inside a string after 5000 bytes of valid text (2),
+/// parsed by `parse_slice_with` in its own thread under a watchdog.
+fn byte_run_case(rep: &mut Report, b: u8, l: usize, place: usize, o: Opts) {
+	let mut input: Vec<u8> = match place {
+		0 => Vec::new(),
+		1 => b"[\"a".to_vec(),
+		_ => {
+			let mut p = b"[".to_vec();
+			while p.len() < 5000 {
+				p.extend_from_slice(b"10, ");
+			}
+			p.extend_from_slice(b"\"");
+			p
+		}
+	};
+	input.extend(std::iter::repeat(b).take(l));
+	input.extend_from_slice(b"\"]");
+	rep.evaluations += 1;
+	rep.distinct_by_construction(1);
+	rep.count("family:long-runs-of-one-ill-formed-byte", 1);
+	let case = json!({"sub": "byte-run", "byte": b, "length": l, "placement": place, "options": [o.truncated, o.invalid]});
+	let data = input.clone();
+	let (tx, rx) = std::sync::mpsc::channel();
+	let spawned = std::thread::Builder::new().stack_size(8 << 20).spawn(move || {
+		let r = guard(|| real::parse_slice_with(&data, o).is_ok());
+		let _ = tx.send(r);
+	});
+	if spawned.is_err() {
+		rep.inconclusive.push("could not spawn the watchdog thread of the byte-run family".into());
+		return;
+	}
+	match rx.recv_timeout(Duration::from_secs(120)) {
+		Ok(Ok(_)) => rep.count("byte_runs_decided", 1),
+		Ok(Err(p)) => rep.violation("C03:panic", format!("[long-runs-of-one-ill-formed-byte] parse_slice_with panicked on {} x 0x{:02x} (placement {}): {}", l, b, place, p), case),
+		Err(_) => rep.violation(
+			"C03:no-return",
+			format!("[long-runs-of-one-ill-formed-byte] parse_slice_with did not return within 120 s on a {}-byte input ({} x 0x{:02x}, placement {}); inputs of this size take milliseconds", input.len(), l, b, place),
+			case,
+		),
+	}
+}
+
 pub fn run(cfg: &Config) -> i32 {
 	let started = Instant::now();
 	let thorough = cfg.tier == Tier::Thorough;
@@ -573,6 +631,33 @@ pub fn run(cfg: &Config) -> i32 {
 		rep
 	});
 	total.merge(rep);
+
+	// long runs of one byte that is not a character by itself (continuation bytes, lead bytes of every
+	// length, 0xFF), of lengths around 2^12 and 2^16, at the start of the input, inside a string and after
+	// a few KiB of valid text; each parse runs in its own thread under a watchdog
+	if !cfg!(miri) {
+		let runs: Vec<(u8, usize, usize)> = {
+			let mut v = Vec::new();
+			let lens: &[usize] = if cfg.san { &[4096, 65_537] } else { &[4095, 4096, 4097, 8192, 12_288, 65_535, 65_536, 65_537, 200_000] };
+			for b in [0x80u8, 0xbf, 0xc3, 0xe2, 0xed, 0xf0, 0xf4, 0xff] {
+				for &l in lens {
+					for place in 0..3usize {
+						v.push((b, l, place));
+					}
+				}
+			}
+			v
+		};
+		let rep = parallel(cfg.threads, runs.len(), |i| {
+			let (b, l, place) = runs[i];
+			let mut rep = Report::new();
+			for o in [Opts::STRICT, Opts { truncated: true, invalid: true }] {
+				byte_run_case(&mut rep, b, l, place, o);
+			}
+			rep
+		});
+		total.merge(rep);
+	}
 
 	// random character sequences (always valid UTF-8, so every one goes through the probing source)
 	let n_chars = cfg.budget(200_000, 10_000_000);
@@ -754,6 +839,16 @@ pub fn replay_case(cfg: &Config, case: &serde_json::Value) -> Option<Vec<String>
 				},
 				other => rep.violation("C03:replay-deep", format!("child: {:?}", other.map(|x| (x.0, x.1))), case.clone()),
 			}
+		}
+		Some("byte-run") => {
+			let o = case.get("options").and_then(|x| x.as_array()).cloned().unwrap_or_default();
+			byte_run_case(
+				&mut rep,
+				case.get("byte").and_then(|x| x.as_u64()).unwrap_or(0x80) as u8,
+				case.get("length").and_then(|x| x.as_u64()).unwrap_or(4096) as usize,
+				case.get("placement").and_then(|x| x.as_u64()).unwrap_or(0) as usize,
+				Opts { truncated: o.first().and_then(|x| x.as_bool()).unwrap_or(false), invalid: o.get(1).and_then(|x| x.as_bool()).unwrap_or(false) },
+			);
 		}
 		_ => return None,
 	}
